@@ -642,6 +642,7 @@ def _scan(state: TokenizerState, readline: Callable[[], str]) -> Iterator[TokenI
         state.move_next_line(readline)
 
         if state.end_progs:
+            state.continued = False  # a backslash inside a replacement field joins this line: nothing is pending after it
             yield from handle_end_progs(state)
 
         elif state.parenlev == 0 and not state.continued:  # new statement
